@@ -160,6 +160,13 @@ def source_b(case):
         return head + "pub enum Outer { %s }\n" % ", ".join(body)
     if k == "tuple_struct":
         return "#[typeshare]\npub struct Outer(%s);\n" % ", ".join(["String"] * case[1])
+    if k == "tuple_inner_skip":
+        # several unnamed fields of which all but one carry a skip marker: serde still writes a sequence, so this stays unsupported
+        _, where, marker, skipped_first = case
+        a, b = ("%s u32" % marker, "String") if skipped_first else ("String", "%s u32" % marker)
+        if where == "struct":
+            return "#[typeshare]\npub struct Outer(%s, %s);\n" % (a, b)
+        return '#[typeshare]\n#[serde(tag = "t", content = "c")]\npub enum Outer { Keep(String), Bad(%s, %s) }\n' % (a, b)
     if k == "flatten":
         _, where, skip, merged = case
         fl = "#[serde(rename = \"x\", flatten)]" if merged else "#[serde(flatten)]"
@@ -190,6 +197,8 @@ def oracle_b(case):
         return ("ok", {"variants": len(eff)}) if (tag and content) else ("error", None)
     if k == "tuple_struct":
         return ("ok", {}) if case[1] == 1 else ("error", None)
+    if k == "tuple_inner_skip":
+        return ("error", None)
     if k == "flatten":
         return ("ok", {}) if case[2] else ("error", None)
     if k == "const":
@@ -234,6 +243,7 @@ CONSTS = [("12", "u32", 12), ("0", "i32", 0), ("-5", "i32", None), ("1 + 2", "u3
 def b_cases(tier):
     out = enum_cases(2 if tier == "quick" else 3)
     out += [("tuple_struct", n) for n in (1, 2, 3)]
+    out += [("tuple_inner_skip", w, m, f) for w in ("struct", "variant") for m in ("#[serde(skip)]", "#[typeshare(skip)]", "#[serde(skip_serializing)]") for f in (False, True)]
     out += [("flatten", w, s, m) for w in ("struct", "variant") for s in ("", "#[serde(skip)]", "#[typeshare(skip)]") for m in (False, True, "serialized_as_after", "serialized_as_before", "default_too")]
     out += [("const", e, t, v) for e, t, v in CONSTS]
     return out
